@@ -398,6 +398,39 @@ func (c *Ctx) ruleRunID(rule string, fnset map[*ssa.Function]bool) {
 				bad = append(bad, b.desc)
 			}
 		}
+		// the empty run ID is only right where no run ID is at hand: in a function that has a run-ID parameter, an
+		// empty-ID store must sit where that parameter is known to be empty
+		for _, b := range s.bases(sk.v, map[ssa.Value]bool{}, 0) {
+			if b.ok && strings.Contains(b.desc, "empty run ID") {
+				for _, p := range sk.fn.Params {
+					if !s.params[p] {
+						continue
+					}
+					p := p
+					hold := core.MustHold(sk.fn, func(cond core.Cond) bool {
+						bo, ok := cond.V.(*ssa.BinOp)
+						if !ok || (bo.Op != token.EQL && bo.Op != token.NEQ) {
+							return false
+						}
+						isEq := (bo.Op == token.EQL) == cond.True
+						if !isEq {
+							return false
+						}
+						for _, pair := range [][2]ssa.Value{{bo.X, bo.Y}, {bo.Y, bo.X}} {
+							if pair[0] == ssa.Value(p) || s.c.M.ValPath(pair[0]) == p.Name() {
+								if str, ok := core.ConstString(pair[1]); ok && str == "" {
+									return true
+								}
+							}
+						}
+						return false
+					})
+					if !hold[sk.pos.Block()] {
+						bad = append(bad, "the empty run ID although the run-ID parameter "+p.Name()+" is at hand and not known to be empty")
+					}
+				}
+			}
+		}
 		good = uniqStrings(good)
 		bad = uniqStrings(bad)
 		if len(bad) == 0 {
